@@ -198,6 +198,7 @@ func runC05Race(s *kernel.Sim) {
 	if s.Choose("sched", 3) != 0 {
 		s.Sched = kernel.SchedPriority
 	}
+	s.StallPermille = []int{0, 25, 70}[s.Choose("stallrate", 3)]
 	s.SetYield("store", 3)
 	s.SetYield("storeret", 2)
 	s.SetYield("op", 3)
@@ -824,6 +825,7 @@ func runC11Conc(s *kernel.Sim) {
 	if s.Choose("sched", 3) != 0 {
 		s.Sched = kernel.SchedPriority
 	}
+	s.StallPermille = []int{0, 25, 70}[s.Choose("stallrate", 3)]
 	s.SetYield("store", 3)
 	s.SetYield("storeret", 2)
 	if driver == "badger" {
